@@ -21,9 +21,9 @@ Definition run_case (st : dstate) (x : sexp) : dstate * outcome :=
   | SList [SAtom "setprop"; SAtom p] => (mkDS (ds_schemas st) p (ds_confs st), mkOut [] 0 0 ["setprop"])
   | SList [SAtom "defconf"; SAtom id; vs; ms; ign] =>
       (mkDS (ds_schemas st) (ds_prop st) (assoc_set id (vs, ms, ign) (ds_confs st)), mkOut [] 0 0 ["defconf"])
-  | SList [SAtom "hist.apply"; SAtom cid; live; mobs; mgr; ver; cfg; a; b; c; d] =>
+  | SList [SAtom "hist.apply"; SAtom cid; live; mobs; mgr; ver; cfg; a; b; c; d; pv] =>
       match with_conf st cid with
-      | Some hc => (st, run_hist_apply (ds_prop st) (ds_schemas st) hc live mobs mgr ver cfg a b c d)
+      | Some hc => (st, run_hist_apply (ds_prop st) (ds_schemas st) hc live mobs mgr ver cfg a b c d pv)
       | None => (st, out_bad "unknown conf")
       end
   | SList [SAtom "hist.update"; SAtom cid; live; mobs; mgr; ver; obj; o] =>
